@@ -217,9 +217,16 @@ class Trace:
                     if op[0] == "ev":
                         ty, mode, sq = op[1], op[2], int(op[3])
                         ok_mode = mode in ("b", "ds") or int(mode[1:]) in connected
+                        ent_ = op[4] if len(op) > 4 else None
+                        if ent_ is not None and int(ent_.lstrip("r")) not in spec_marked:
+                            # the script names an entity that was never spawned (only shrunk scripts do): the harness sends a
+                            # trigger without target and skips a mapped event
+                            if ty == "SEM":
+                                ok_mode = False
+                            ent_ = None
                         if ok_mode:
                             emitted[sq] = dict(ty=ty, mode=mode, step=i, connected={c: sess_id[c] for c in connected},
-                                               ent=op[4] if len(op) > 4 else None, running=True)
+                                               ent=ent_, running=True)
                         continue
                     if op[0] == "rel":
                         e_, t_ = int(op[1]), int(op[2])
